@@ -266,7 +266,7 @@ fn optimize_case<const N: usize>() {
     std::mem::forget(out);
 }
 
-// @verif prop=C04,C17 id=O4.2/1 tier=quick unwind=4 bound="exactly 1 arbitrary non-empty chunk, any min_offset, any probe offset" fns="optimize_chunks,merge_chunks"
+// @verif prop=C04,C17 id=O4.2/1 tier=quick unwind=4 timeout=1500 bound="exactly 1 arbitrary non-empty chunk, any min_offset, any probe offset" fns="optimize_chunks,merge_chunks"
 #[kani::proof]
 #[kani::unwind(4)]
 fn c04_optimize_chunks_1() {
@@ -347,7 +347,7 @@ fn linear_step<const L: usize>() {
         assert!(m <= vp(off0));
     }
     kani::cover!(idx.len() > L);
-    kani::cover!(idx.len() == L && L > 0);
+    kani::cover!(L == 0 || idx.len() == L);
     std::mem::forget(idx);
 }
 
@@ -395,3 +395,4 @@ fn c04_canary_min_offset_upper_bound() {
     assert!(idx.min_offset(14, 5, pos(q)) >= vp(off1));
     std::mem::forget(idx);
 }
+
